@@ -18,13 +18,15 @@ def _close(a, b, tol=1e-12):
     return abs(a[0] - b[0]) <= tol and abs(a[1] - b[1]) <= tol
 
 
-def check_path_links(S, path, lo=0, hi=None):
+def check_path_links(S, path, lo=0, hi=None, move_starts=True):
     """stored pairs are linked and every Close returns to its subpath start; returns a description or None"""
     segs = path._segments
     n = len(segs)
     hi = n if hi is None else min(hi, n)
     for i in range(max(lo, 1), hi):
         a, b = segs[i - 1].end, segs[i].start
+        if not move_starts and isinstance(segs[i], S.Move):
+            continue  # the start of a move is a back link without geometric meaning
         if a is not None and b is not None:
             try:
                 if not _close((a.x, a.y), (b.x, b.y)):
@@ -39,10 +41,16 @@ def check_path_links(S, path, lo=0, hi=None):
                 if isinstance(segs[k], S.Move):
                     target = segs[k].end
                     break
+            alt = None
             if target is None:
+                # a fragment without a move: its first subpath starts where its first segment starts (the library
+                # itself falls back to that segment's end when the start is unknown)
                 target = segs[0].end
+                alt = segs[0].start
             if target is not None:
                 try:
+                    if alt is not None and _close((seg.end.x, seg.end.y), (alt.x, alt.y)):
+                        continue
                     if not _close((seg.end.x, seg.end.y), (target.x, target.y)):
                         return "close %d ends at %s, its subpath started at %s" % (i, _pt(seg.end), _pt(target))
                 except TypeError:
